@@ -134,6 +134,9 @@ class BufEvaluator(Evaluator):
         if op == 'load':
             a = self._val(regs, i.ops[0])
             if isinstance(a, tuple) and a[0] == 'fld':
+                if a[1] not in path.mem:
+                    # a descriptor field the proof knows nothing about (a statistics counter, say): some value of its type
+                    path.mem[a[1]] = P('unknown:%s' % i.id, 0) if i.ty.endswith('*') else self.fresh_var(path, i.ty)
                 regs[i.id] = path.mem[a[1]]
                 return True
             if isinstance(a, tuple) and a[0] == 'ptr':
@@ -277,6 +280,8 @@ def analyse_writer(mod, fn, fixed=None):
         ev._run(fn, dict(zip([a['id'] for a in fn.args], args)), path, fn.entry.id, None, out, 0)
     except AnalysisBroken as e:
         return ('undecided', str(e))
+    except (KeyError, TypeError, AttributeError, IndexError, RecursionError) as e:
+        return ('undecided', 'construct outside the path evaluator (%s: %s)' % (type(e).__name__, e))
     exits = []
     for p2, rv in out:
         ln, ps = p2.mem[BUFS + '.len'], p2.mem[BUFS + '.pos']
